@@ -655,7 +655,7 @@ fn class_of(cfg: &Cfg, pt: (i64, i64)) -> (i64, &'static str) {
         // left of the segment / bucket index / right of the segment
         Op::AExp | Op::Sigmoid | Op::Gelu | Op::GeluD => {
             let (left, width, lb) = pwl_geometry(cfg);
-            let bucket_w = width >> lb;
+            let bucket_w = (width >> lb).max(1);
             let s = pt.0 - left;
             if s < 0 {
                 (-1, "pwl_left_points")
@@ -996,6 +996,19 @@ fn configs(thorough: bool) -> Vec<(Cfg, Level)> {
                 }
                 let level = lvl(lb == 5, lb == 5 || (op == Op::Gelu && lb == 6));
                 out.push((Cfg { op, signed: true, k: lb, p, k_default: 5, approx: Approx::Internal }, level));
+            }
+        }
+    }
+    // coarse fixed-point formats: the precision at or below the number of bucket bits of the table (the bucket
+    // width in input units is then 1 or a fraction of a unit); whole domain, tiny grids
+    for p in [2u64, 3, 4, 5, 6, 7] {
+        out.push((Cfg { op: Op::AExp, signed: true, k: 6, p, k_default: 6, approx: Approx::Internal }, Full));
+        for op in [Op::Sigmoid, Op::Gelu, Op::GeluD] {
+            for lb in [5u64, 6] {
+                if lb == 6 && !(thorough || p == 5) {
+                    continue;
+                }
+                out.push((Cfg { op, signed: true, k: lb, p, k_default: 5, approx: Approx::Internal }, Full));
             }
         }
     }
